@@ -58,10 +58,10 @@ Cells2(p) ==
   IF Big THEN { S(<<>>), S(<<A>>), S(<<p.fd>>), S(<<p.qc>>), S(<<Esc(p)>>), S(<<LF>>), S(<<CR>>), S(<<CR, LF>>), S(<<SPACE, A>>),
                 S(<<A, SPACE>>), S(<<ONE>>), S(TRUEW), S(<<p.qc, p.qc>>), S(<<EACUTE>>) } \cup (IF p.infer THEN ScalarsS ELSE {})
   ELSE { S(<<>>), S(<<A>>), S(<<p.fd>>), S(<<p.qc>>), S(<<Esc(p)>>), S(<<LF>>), S(<<SPACE, A>>), S(<<ONE>>) }
-       \cup (IF p.infer THEN { <<"int", 1>>, <<"null">> } ELSE {})
+       \cup (IF p.infer THEN { <<"int", 1>>, <<"int", 0 - 1>>, <<"bool", TRUE>>, <<"null">> } ELSE {})      \* (every scalar event kind of the reader: uint64, int64, bool, null)
 \* family "grid"
 Cells3(p) == (IF Big THEN { S(<<>>), S(<<A>>), S(<<A, p.fd>>), S(<<p.qc>>), S(<<LF>>) } ELSE { S(<<>>), S(<<A, p.fd>>), S(<<LF>>) })
-             \cup (IF p.infer THEN { <<"int", 1>> } ELSE {})
+             \cup (IF p.infer THEN { <<"int", 1>>, <<"int", 0 - 7>> } ELSE {})
 Cells4(p) == { S(<<>>), S(<<p.fd, p.qc>>) } \cup (IF p.infer THEN { <<"null">> } ELSE {})
 
 Rows(n, m, C) == [1..n -> [1..m -> C]]           \* all n x m grids over C
